@@ -46,3 +46,12 @@ def hashes256():
     """message hashes in [1, 2^256-1]"""
     return st.one_of(boundary_ints(1, 2**256 - 1, extra=(SECP_N - 1, SECP_N, SECP_N + 1, SECP_P, SECP_P - 1)),
                      patterned_256().map(lambda v: v or 1))
+
+
+def weighted(*pairs):
+    """weighted choice between strategies: weighted((3, a), (1, b)).
+    NB: st.one_of(a, a, b) does NOT weight - Hypothesis de-duplicates identical strategy objects."""
+    table = []
+    for w, s in pairs:
+        table.extend([s] * w)
+    return st.integers(0, len(table) - 1).flatmap(lambda i: table[i])
